@@ -85,9 +85,30 @@ def extracted_timer(repo):
                          TIMER_CONS, specs)
 
 
+# Timer.run, the timer process, cut at its program points (vlib/translate_gen.py): the yield, and the CALL-OUT to the
+# user's callback (which may call restart()/stop() on this very timer: the fields are re-read after it);
+# Gen/Extracted_timer_run.v; bridged to TProcInit / TProcTimeout / TProcInterrupt of Elem/Timer.v by
+# coq/Elem/TimerRunBridge.v; obligations in Props/C19_BridgeRun.v
+TIMER_RUN_READS = [("self.env.now", "now", "Q"), ("env.now", "now", "Q"),
+                   ("self.auto_restart", "auto_restart", "bool"),
+                   ("math.nextafter(self.env.now, math.inf)", "next_instant", "Q")]   # _arm(), see TIMER_READS
+TIMER_RUN_REQUESTS = [("self.env.timeout(_1)", "RqTimeout", ["Q"], None), ("env.timeout(_1)", "RqTimeout", ["Q"], None)]
+TIMER_RUN_CALLOUTS = [("self.timeout_callback(*self.args, **self.kwargs)", "CoCallback", [])]
+
+
+def extracted_timer_run(repo):
+    import os
+    from vlib import translate_gen as tg
+    spec = tg.GenSpec(os.path.join(repo, "onl", "utils", "timer.py"), "Timer", "run", "gen_Timer_run",
+                      reads=TIMER_RUN_READS, requests=TIMER_RUN_REQUESTS, callouts=TIMER_RUN_CALLOUTS, inline=["_arm"],
+                      interrupt="Interrupt")
+    return tg.gen_run_module("onl/utils/timer.py: Timer.run", spec, TIMER_STATE, "timer_run_st", "tr_", "timer_run_fx", [],
+                             [("RqTimeout", "(d : Q)")], call_cons=[("CoCallback", "")], types="timer_run")
+
+
 class C19(Prop):
     id = "C19"
-    props_file = ["Props/C19.v", "Props/C19_Bridge.v"]
+    props_file = ["Props/C19.v", "Props/C19_Bridge.v", "Props/C19_BridgeRun.v"]
     coq_imports = ["From ONL Require Import Base.Cmp Elem.Timer."]
     n_quick = 600
     n_thorough = 12000
@@ -113,6 +134,12 @@ class C19(Prop):
         "vlib/translate.py (Python ast, fail closed; observation/effect tables above the plugin class in props/c19.py) regenerates "
         "coq/Gen/Extracted_timer.v from Timer.stop / Timer.restart of the tree under test before every build; the C19_gen_* theorems "
         "(Props/C19_Bridge.v) bridge them to do_stop / do_restart of the hand-written model",
+        "vlib/translate_gen.py (same subset and tables, plus the cut of a generator body at its yields and listed call-outs; tables "
+        "TIMER_RUN_* in props/c19.py) regenerates coq/Gen/Extracted_timer_run.v from Timer.run before every build; the "
+        "C19_gen_timer_run_* theorems (Props/C19_BridgeRun.v, proofs Elem/TimerRunBridge.v) prove TProcInit / TProcTimeout / "
+        "TProcInterrupt of the automaton equal to the generated functions (the except-Interrupt arm = the resume-with-Interrupt "
+        "function; the callback a call-out after which the fields are re-read); that the kernel resumes the generator exactly "
+        "at these steps is K1/K2 plus the per-run correspondence",
     ]
     assumptions = [
         "timeouts given to Timer() and restart() are positive (the constructor enforces it; restart(tau<=0) never fires and is outside C19)",
@@ -129,6 +156,7 @@ class C19(Prop):
         from vlib import framework as fw
         from vlib import translate as tr
         tr.write_if_changed(os.path.join(fw.COQ, "Gen", "Extracted_timer.v"), extracted_timer(fw.REPO))
+        tr.write_if_changed(os.path.join(fw.COQ, "Gen", "Extracted_timer_run.v"), extracted_timer_run(fw.REPO))
 
     # ---- generation -----------------------------------------------------------------------------
     def gen_case(self, rng, tier):
